@@ -13,4 +13,4 @@ Extraction "model.ml"
   simple_add_signed_mul split_into_chunks karatsuba_same_len toom3_same_len
   add_signed_mul_same_len add_signed_mul multiply simple_square sqr
   repr_value srepr_value from_buffer typed_of_value repr_add repr_sub repr_sub_signed repr_mul repr_sqr
-  ibig_add_asis ibig_sub_asis ibig_mul_asis repr_pow ubig_pow_asis ibig_pow_asis.
+  ibig_add_asis ibig_sub_asis ibig_mul_asis ubig_cubic_asis ibig_cubic_asis repr_pow ubig_pow_asis ibig_pow_asis.
